@@ -68,6 +68,9 @@ pub use rounding::{
 mod parser;
 mod powers_of_ten;
 mod rounding;
+#[cfg(fpdec_verif)]
+#[doc(hidden)]
+pub mod verif_cov;
 
 /// The maximum number of fractional decimal digits supported by `Decimal`.
 pub const MAX_N_FRAC_DIGITS: u8 = 18;
@@ -301,6 +304,8 @@ const fn u128_mul_u128(x: u128, y: u128) -> (u128, u128) {
 #[allow(clippy::integer_division)]
 fn u256_idiv_u64(xh: &mut u128, xl: &mut u128, y: u64) -> u128 {
     if y == 1 {
+        #[cfg(fpdec_verif)]
+        crate::verif_cov::hit(3);
         return 0;
     }
     let y = y as u128;
@@ -333,6 +338,10 @@ fn u256_idiv_u128_special(xh: &mut u128, xl: &mut u128, mut y: u128) -> u128 {
     // Normalize dividend and divisor, so that y > 2^127 (i.e. highest bit
     // set)
     let n_bits = 127 - u128_msb(y);
+    #[cfg(fpdec_verif)]
+    if n_bits == 0 {
+        crate::verif_cov::hit(4);
+    }
     y <<= n_bits;
     let yn1 = u128_hi(y);
     let yn0 = u128_lo(y);
@@ -352,10 +361,23 @@ fn u256_idiv_u128_special(xh: &mut u128, xl: &mut u128, mut y: u128) -> u128 {
     // q1 * yn1 + rhat = xn32
     // so that
     // q1 * yn1 * 2^64 + rhat * 2^64 + xn1 = xn32 * 2^64 + xn1
+    #[cfg(fpdec_verif)]
+    let mut n_iter = 0_u8;
+    #[cfg(fpdec_verif)]
+    if q1 >= B {
+        crate::verif_cov::hit(11);
+    }
     while q1 >= B || q1 * yn0 > rhat * B + xn1 {
+        #[cfg(fpdec_verif)]
+        {
+            n_iter += 1;
+            crate::verif_cov::hit(if n_iter == 1 { 5 } else { 6 });
+        }
         q1 -= 1;
         rhat += yn1;
         if rhat >= B {
+            #[cfg(fpdec_verif)]
+            crate::verif_cov::hit(7);
             break;
         }
     }
@@ -377,10 +399,23 @@ fn u256_idiv_u128_special(xh: &mut u128, xl: &mut u128, mut y: u128) -> u128 {
         .wrapping_sub(q1.wrapping_mul(y));
     let mut q0 = t / yn1;
     rhat = t % yn1;
+    #[cfg(fpdec_verif)]
+    let mut n_iter = 0_u8;
+    #[cfg(fpdec_verif)]
+    if q0 >= B {
+        crate::verif_cov::hit(12);
+    }
     while q0 >= B || q0 * yn0 > rhat * B + xn0 {
+        #[cfg(fpdec_verif)]
+        {
+            n_iter += 1;
+            crate::verif_cov::hit(if n_iter == 1 { 8 } else { 9 });
+        }
         q0 -= 1;
         rhat += yn1;
         if rhat >= B {
+            #[cfg(fpdec_verif)]
+            crate::verif_cov::hit(10);
             break;
         }
     }
@@ -399,11 +434,17 @@ fn u256_idiv_u128_special(xh: &mut u128, xl: &mut u128, mut y: u128) -> u128 {
 #[allow(clippy::cast_possible_truncation)]
 fn u256_idiv_u128(xh: &mut u128, xl: &mut u128, y: u128) -> u128 {
     if u128_hi(y) == 0 {
+        #[cfg(fpdec_verif)]
+        crate::verif_cov::hit(0);
         return u256_idiv_u64(xh, xl, u128_lo(y) as u64);
     }
     if *xh < y {
+        #[cfg(fpdec_verif)]
+        crate::verif_cov::hit(1);
         return u256_idiv_u128_special(xh, xl, y);
     }
+    #[cfg(fpdec_verif)]
+    crate::verif_cov::hit(2);
     let mut t = *xh % y;
     let r = u256_idiv_u128_special(&mut t, xl, y);
     *xh /= y;
@@ -425,6 +466,8 @@ pub fn i128_shifted_div_mod_floor(
         u128_mul_u128(x.unsigned_abs(), ten_pow(p) as u128);
     let r = u256_idiv_u128(&mut xh, &mut xl, y.unsigned_abs());
     if xh != 0 || xl > i128::MAX as u128 {
+        #[cfg(fpdec_verif)]
+        crate::verif_cov::hit(19);
         return None;
     }
     // xl <= i128::MAX, so xl as i128 is safe.
@@ -433,14 +476,22 @@ pub fn i128_shifted_div_mod_floor(
     let mut r = r as i128;
     if x.is_negative() {
         if y.is_negative() {
+            #[cfg(fpdec_verif)]
+            crate::verif_cov::hit(13);
             r = r.neg();
         } else if r == 0 {
+            #[cfg(fpdec_verif)]
+            crate::verif_cov::hit(14);
             q = q.neg();
         } else {
+            #[cfg(fpdec_verif)]
+            crate::verif_cov::hit(15);
             q = q.neg() - 1;
             r = y - r;
         }
     } else if y.is_negative() {
+        #[cfg(fpdec_verif)]
+        crate::verif_cov::hit(16);
         q = q.neg() - 1;
         r -= y;
     }
@@ -463,6 +514,8 @@ pub fn i256_div_mod_floor(
         u128_mul_u128(x1.unsigned_abs(), x2.unsigned_abs());
     let r = u256_idiv_u128(&mut xh, &mut xl, y.unsigned_abs());
     if xh != 0 || xl > i128::MAX as u128 {
+        #[cfg(fpdec_verif)]
+        crate::verif_cov::hit(19);
         return None;
     }
     // xl <= i128::MAX, so xl as i128 is safe.
@@ -471,8 +524,12 @@ pub fn i256_div_mod_floor(
     let mut r = r as i128;
     if x1.is_negative() != x2.is_negative() {
         if r == 0 {
+            #[cfg(fpdec_verif)]
+            crate::verif_cov::hit(17);
             q = q.neg();
         } else {
+            #[cfg(fpdec_verif)]
+            crate::verif_cov::hit(18);
             q = q.neg() - 1;
             r = y - r;
         }
